@@ -51,6 +51,7 @@ type NetFault struct {
 // Cluster is a set of instances connected by an intercepting in-process network that goes through the
 // real receiver handlers (with the caller's authenticated name in the context, as the interceptor sets it).
 type Cluster struct {
+	shares map[uint64]map[uint64]bls.SecretKey
 	Log    *Log
 	Inst   map[uint64]*Instance
 	Order  []uint64 // instance ids, ascending
@@ -186,6 +187,17 @@ func (c *Cluster) fault(site string, from, to uint64) string {
 		}
 	}
 	return ""
+}
+
+// unhit takes back the "applied" mark of a planned fault that could not be applied after all.
+func (c *Cluster) unhit(site string, from, to uint64) {
+	c.mu.Lock()
+	defer c.mu.Unlock()
+	for _, f := range c.Faults {
+		if f.Site == site && (f.From == 0 || f.From == from) && (f.To == 0 || f.To == to) {
+			f.Hit = false
+		}
+	}
 }
 
 func callerCtx(ctx context.Context, name string) context.Context {
@@ -441,7 +453,17 @@ func (s *netSender) SendContribution(ctx context.Context, recipient *core.Endpoi
 	if kind == "lost" {
 		return bls.SecretKey{}, nil, errors.New("verif: message lost")
 	}
+	// (every genuine share that passes is remembered: "the share computed for ANOTHER participant" is then a real one)
+	s.c.rememberShare(s.from.ID, to.ID, distributionSecret)
 	sec, vv := tamper(kind, to.ID, distributionSecret, verificationVector)
+	if kind == "share-swapped" {
+		if other, ok := s.c.otherShare(s.from.ID, to.ID); ok {
+			sec = other
+		} else {
+			s.c.unhit("contribute.req", s.from.ID, to.ID) // (no other share of this producer is known yet: nothing was tampered with)
+			s.c.Log.Emit(Ev{"ev": "FaultSkipped", "site": "contribute.req", "from": s.from.ID, "to": to.ID, "kind": kind})
+		}
+	}
 	vb := make([][]byte, len(vv))
 	for i := range vv {
 		vb[i] = vv[i].Serialize()
@@ -486,8 +508,59 @@ func (s *netSender) SendContribution(ctx context.Context, recipient *core.Endpoi
 		}
 	}
 	s.c.Log.Emit(Ev{"ev": "ContribReply", "from": to.ID, "to": s.from.ID, "for_caller": ownerOK, "for_others": others})
+	s.c.rememberShare(to.ID, s.from.ID, rs)
+	genuine := rs
 	rs, rv = tamper(rkind, s.from.ID, rs, rv)
+	if rkind == "share-swapped" {
+		rs = genuine
+		if other, ok := s.c.otherShare(to.ID, s.from.ID); ok {
+			rs = other
+		} else {
+			s.c.unhit("contribute.rep", to.ID, s.from.ID)
+			s.c.Log.Emit(Ev{"ev": "FaultSkipped", "site": "contribute.rep", "from": to.ID, "to": s.from.ID, "kind": rkind})
+		}
+	}
 	return rs, rv, nil
+}
+
+// rememberShare / otherShare: the genuine shares seen on the network so far, by producer and by the participant they were computed
+// for.  otherShare(from, notFor) hands back a share the same producer computed for somebody else - preferring an identifier that
+// agrees with notFor in its low bits (identifiers that a careless conversion could confuse).
+func (c *Cluster) rememberShare(from, forID uint64, sk bls.SecretKey) {
+	c.mu.Lock()
+	defer c.mu.Unlock()
+	if c.shares == nil {
+		c.shares = map[uint64]map[uint64]bls.SecretKey{}
+	}
+	if c.shares[from] == nil {
+		c.shares[from] = map[uint64]bls.SecretKey{}
+	}
+	c.shares[from][forID] = sk
+}
+
+func (c *Cluster) otherShare(from, notFor uint64) (bls.SecretKey, bool) {
+	c.mu.Lock()
+	defer c.mu.Unlock()
+	best, found := uint64(0), false
+	score := func(id uint64) int {
+		n := 0
+		for bit := 0; bit < 64 && (id^notFor)&(1<<bit) == 0; bit++ {
+			n++
+		}
+		return n
+	}
+	for id := range c.shares[from] {
+		if id == notFor {
+			continue
+		}
+		if !found || score(id) > score(best) || (score(id) == score(best) && id < best) {
+			best, found = id, true
+		}
+	}
+	if !found {
+		return bls.SecretKey{}, false
+	}
+	return c.shares[from][best], true
 }
 
 func verifyShare(id uint64, share bls.SecretKey, vVec []bls.PublicKey) bool {
